@@ -12,7 +12,8 @@ CONSTANTS Comp = "multi"
   NBuf = 0
   Gaps <- G_6_11
   Strict = TRUE
-  D = 4
+  Busy = FALSE
+  D = 5
 INIT Init
 NEXT Next
 VIEW viewE
